@@ -6,6 +6,7 @@ import RubyTi.Model.Args
 import RubyTi.Model.Sig
 import RubyTi.Model.Rbs
 import RubyTi.Model.C2json
+import RubyTi.Model.Suggest
 
 /-! Line-protocol driver over the executable model definitions (core-only, built as `lean_exe`).
 One op per input line, one answer line per op; the answer format is the one
@@ -158,6 +159,35 @@ def opSortSig (args : String) : String :=
         (if s.isStatic then "1" else "0"), String.ofList s.fileName, toString s.row])
   | _ => "BAD-ARGS"
 
+def tyTag (s : String) : Suggest.TyTag :=
+  if s == "SELF" then .self else if s == "INT" then .int else if s == "FLOAT" then .float
+  else if s == "ARRAY" then .array else if s == "HASH" then .hash else if s == "STRING" then .string
+  else if s == "OBJECT" then .object else if s == "UNKNOWN" then .unknown else .other
+
+/-- suggest <edges> | <recipe> | <sig> | <accessors> | <builtin classes, comma separated> -/
+def opSuggest (args : String) : String :=
+  match args.splitOn " | " with
+  | [edges, recipe, sg, acc, bcs] =>
+    let es := (edges.trimAscii.toString.splitOn ";").filter (· != "")
+    let g : Inherit.Inh := es.foldl (fun g e =>
+      match e.splitOn "~" with
+      | [cf, cc, pf, pc, inc, ext] =>
+        let k := (cf.toList, cc.toList)
+        let node : Inherit.Node := { frame := pf.toList, cls := pc.toList, isInclude := inc == "1", isExtend := ext == "1" }
+        Frame.insert g k ((Frame.lookup g k).getD [] ++ [node])
+      | _ => g) []
+    let bc := (bcs.splitOn ",").map String.toList
+    match recipe.splitOn "~", sg.splitOn "~", acc.splitOn "~" with
+    | [_, _, _, dframe, dclass, dmethod, st, _], [sf, sc, sm, sst, spriv], [ict, str, ty, oc, fr, before] =>
+      let v : Suggest.TView := { isClassType := ict == "1", str := str.toList, ty := tyTag ty, objectClass := oc.toList, frame := fr.toList, before := before.toList, definedFrame := dframe.toList, definedClass := dclass.toList, definedMethod := dmethod.toList, isStatic := st == "1" }
+      let sig : Sig.Sig := { method := sm.toList, detail := [], frame := sf.toList, cls := sc.toList, isStatic := sst == "1", isPrivate := spriv == "1", fileName := [], row := 0, document := [] }
+      let r := Suggest.calcObjectClass v
+      let fuel := 4 * (es.length + 2) + 4
+      let b (x : Bool) := if x then "1" else "0"
+      String.ofList r.1 ++ "~" ++ b r.2 ++ " | " ++ b (Suggest.kernelRule v sig.cls) ++ b (Suggest.isSuggest fuel g bc v.target sig)
+    | _, _, _ => "BAD-ARGS"
+  | _ => "BAD-ARGS"
+
 def rbsParam (s : String) : Rbs.Param :=
   if s == "_" then none else some (((s.splitOn ",").filter (· != "")).map String.toList)
 
@@ -213,6 +243,7 @@ def dispatch (line : String) : String :=
   else if name == "builtin" then opBuiltin args
   else if name == "prio" then opPrio args
   else if name == "sortsig" then opSortSig args
+  else if name == "suggest" then opSuggest args
   else if name == "rbsargs" then opRbsArgs args
   else if name == "c2jargs" then opC2j args
   else if name == "pdef" then opPDef args
